@@ -137,6 +137,38 @@ def run(chk):
     chk.violation('correspondence', 'Model/Linen.v on the plain equivalent (transformed class names, control flow resolved) and the program run with the lifted transforms disagree on init or '
                   'apply (output, returned collections, names, or error class); theorems C05_* no longer transfer', {'case': c, 'observed_lifted': o['ok']['lifted']})
   chk.cov['traces_validated_against_impl'] = len(rows)
+  # nn.jit on a method of a setup-style module (outside the program grammar): keys before / inside / after the jitted call, over repeated applies
+  jm = [{'depth': rng.choice([1, 1, 2]), 'inside': rng.randint(1, 2), 'own': rng.random() < 0.5, 'seq': [rng.choice(['plain', 'jit', 'jit']) for _ in range(rng.randint(2, 4))] + ['plain'],
+         'applies': 3, 'seed': rng.randint(0, 99)} for _ in range(40 if chk.tier == 'thorough' else 8)]
+  jm += [{'kind': 'class', 'depth': rng.randint(1, 2), 'inside': rng.randint(1, 2), 'own': rng.random() < 0.5, 'seq': [], 'applies': 3, 'seed': rng.randint(0, 99)}
+         for _ in range(12 if chk.tier == 'thorough' else 3)]
+  jr = common.run_impl('impl_c05.py', {'jit_methods': jm}, timeout=1500)['jit_methods']
+  for c, r in zip(jm, jr):
+    chk.count({'jit_method': c}, 'jit' in c['seq'])
+    if 'err' in r:
+      chk.violation('oracle', 'a module with an nn.jit-ed method and setup sub-modules could not be applied: %s' % r['err'], {'case': c, 'tb': r.get('tb')})
+    else:
+      # inside nn.jit the keys are another deterministic function of the call site (the stream is materialised at the boundary); the draws made in plain code must be those of
+      # the undecorated module (the counters advance as if the body had run), and every apply -- the one that traces and the cache hits -- must repeat the first
+      pos, plain_pos = 0, []
+      if c.get('kind') == 'class':
+        pos = (c['inside'] + 1) * (c['depth'] + (1 if c['own'] else 0)) + 1
+        plain_pos = [pos - 1]
+      for step in c['seq']:
+        n = c['depth'] if step == 'plain' else c['inside'] * c['depth'] + (1 if c['own'] else 0)
+        if step == 'plain':
+          plain_pos += list(range(pos, pos + n))
+        pos += n
+      jr_, pr_ = r['ok']['jit'], r['ok']['plain']
+      if any(len(run) != pos for run in jr_ + pr_):
+        chk.violation('oracle', 'an nn.jit-ed method returned another number of keys than the undecorated one', {'case': c, 'observed': r['ok']})
+      elif any(run != jr_[0] for run in jr_) or any(run != pr_[0] for run in pr_):
+        chk.violation('oracle', 'repeating apply with identical rngs gives other keys (an nn.jit cache hit does not behave like the call that traced)', {'case': c, 'observed': r['ok']})
+      elif any(jr_[0][i] != pr_[0][i] for i in plain_pos):
+        chk.violation('oracle', 'keys drawn in plain code before / after an nn.jit-ed method differ from those of the same module without the decorator (the rng counters are not '
+                      'advanced as if the body had run)', {'case': c, 'observed': r['ok']})
+      elif len({tuple(k) for k in jr_[0]}) != len(jr_[0]):
+        chk.violation('oracle', 'a key is handed out twice within one apply around an nn.jit-ed method', {'case': c, 'observed': r['ok']})
   pr = common.run_impl('impl_c05.py', {'probe': True})
   if pr['F26-jit-stale-trace-closure']['fails']:
     chk.violation('oracle', 'nn.jit re-uses a trace made for another module instance: instances of a jitted class that differ only in a closure-valued attribute return the result of an '
